@@ -47,6 +47,10 @@ def special_programs():
         "{ ''.concat.call(); [].concat.apply(); (a).b.c.d.call(); super.x.call(); }", "class A extends B { m(){ super.trim.call(a); super.concat.apply(a, [b]); } }",
         "{ a?.(); a?.b?.(); a?.[b]?.trim?.(); (a?.b).trim(); new (a?.trim)(); }", "{ require(); new RegExp(); require(...a); new RegExp(...a); }",
         "function f(){ return a.concat.apply(a, [,,]); }", "x = `${}`", "function f(){ `${a}${`${b}${`${c}`}`}` }", "{ a.trim`x`; a?.trim`x`; }",
+        # redundant parentheses, deep nesting of one construct, operands ending in a multi-byte character
+        "{ ((o.p)) += x; }", "{ (((x))) += 'a'; }", "{ ((o[k])) += f(); (((o).p)) += 'v'; }", "{ ((((a)))) + ((b)); ((a.trim))(); ((a))?.trim(); }",
+        "function f(){ return f2() + x\u00e9; }", "{ o.p += x\u4727; v += 1 + \u00e9; }", "{ `${f2()}${\u00e9}`; \u00e9.trim(); a.concat(\u00e9); }",
+        "{ " + "(" * 60 + "a + b" + ")" * 60 + "; }", "{ a" + ".trim()" * 200 + "; }", "{ " + "a + " * 500 + "b; }", "{ x = " + "`${" * 40 + "a" + "}`" * 40 + "; }",
         "label: { break label; } a + b", "#!/usr/bin/env node\n{ a + b }", "{ a + b }\n//# sourceMappingURL=", "{ a + b }\n//# sourceMappingURL=data:", "{ a + b }\n//# sourceMappingURL=data:,",
         "{ a + b }\n//# sourceMappingURL=data:application/json;base64,", "{ a + b }\n//# sourceMappingURL=data:application/json;charset=utf-8;base64,e30=", "{ a + b }\n/*# sourceMappingURL=x.map */",
         "{ a + b }\n//# sourceMappingURL=\\\\?\\C:\\x.map", "{ a + b }\n//# sourceMappingURL=%00", "{ a + b }\n//#  sourceMappingURL=x.map  \t", "{ a + b }\n//# sourceMappingURL=é.map",
